@@ -300,6 +300,68 @@ def measure_area(calls, K, glyphSet):
     return int(n)
 
 
+def svg_relative(calls, K, variant):
+    """The outline as an SVG path in RELATIVE commands (m l h v c q z), which SVGPathPen never writes:
+    input for svgLib.path.parse_path.  variant 0: one command letter per segment; variant 1: implicit
+    repetition (a run of segments of the same kind shares one letter, line segments after "m" have none)
+    and h / v for axis-parallel lines.  Only re-expresses the calls (differences of consecutive pen positions);
+    returns None for outlines that have no such expression (components, contours without on-curve point,
+    qCurveTo with implied points, super-beziers, deltas that are not multiples of 1/2)."""
+    out = []
+    cur = (0, 0)          # SVG current point, 1/K units
+    start = None
+    last = None           # last command letter written (for implicit repetition)
+
+    def num(d):
+        if (2 * d) % K:
+            raise ValueError
+        return ("%d" % (d // K)) if d % K == 0 else ("%.1f" % (d / K))
+
+    def emit(letter, vals, repeatable=True):
+        nonlocal last
+        txt = " ".join(num(v) for v in vals)
+        if variant == 1 and repeatable and (last == letter or (last == "m" and letter == "l")):
+            out.append(" " + txt)    # "m x y x y ..": the pairs after the first are implicit linetos
+        else:
+            out.append(letter + txt)
+        last = letter
+
+    try:
+        for c in calls:
+            o = c[0]
+            pts = [(c[i], c[i + 1]) for i in range(1, len(c) - 1, 2)] if o not in (COMP, PCOMP) else []
+            if o == MOVE:
+                last = None
+                emit("m", (pts[0][0] - cur[0], pts[0][1] - cur[1]), repeatable=False)
+                cur = start = pts[0]
+            elif o == LINE or (o in (CURVE, QCURVE) and len(pts) == 1):
+                dx, dy = pts[0][0] - cur[0], pts[0][1] - cur[1]
+                if variant == 1 and dy == 0 and dx != 0:
+                    emit("h", (dx,))
+                elif variant == 1 and dx == 0 and dy != 0:
+                    emit("v", (dy,))
+                else:
+                    emit("l", (dx, dy))
+                cur = pts[0]
+            elif (o == QCURVE and len(pts) == 2) or (o == CURVE and len(pts) == 2):
+                emit("q", [w for p_ in pts for w in (p_[0] - cur[0], p_[1] - cur[1])])
+                cur = pts[-1]
+            elif o == CURVE and len(pts) == 3:
+                emit("c", [w for p_ in pts for w in (p_[0] - cur[0], p_[1] - cur[1])])
+                cur = pts[-1]
+            elif o == CLOSE:
+                out.append("z")
+                last = None
+                cur = start    # SVG: after closepath the current point is the start of the subpath
+            elif o == END:
+                last = None
+            else:
+                return None
+    except ValueError:
+        return None
+    return "".join(out)
+
+
 def build_trace(item):
     """item = (K, calls, tag, variant_seed, level).  Returns the trace as a JSON-able dict."""
     from fontTools.pens.recordingPen import (RecordingPen, RecordingPointPen, DecomposingRecordingPen,
@@ -460,6 +522,10 @@ def build_trace(item):
             play(calls, pen, K)
             parse_path(pen.getCommands(), out)
         tr.run(SVG, I, guarded("svg", lambda: seg_out(svg)), 0, GQ if f.comp else 0)
+        # ... and the parser on relative commands, which SVGPathPen never writes (flag = 1 + variant)
+        rel = svg_relative(calls, K, v)
+        if rel is not None:
+            tr.run(SVG, I, guarded("svgrel", lambda: seg_out(lambda out: parse_path(rel, out))), 1 + v, 0)
         # measurements
         def meas():
             cb = ControlBoundsPen(gsQ)
@@ -695,12 +761,11 @@ NAMES = {RAW: "passthru", S2P: "seg2pt", P2S: "pt2seg", AFF: "transform", RND: "
          DECOMP: "decompose", AREANEG: "areaneg"}
 
 
-def run(chk):
+def lattice_items(chk):
+    """(M) + generation: TLC enumerates the protocol machines (and checks the laws of the specification on every
+    complete outline), a TLC simulation of the same machine adds deeper behaviours; returns the seeded sample of
+    outlines that (R) replays, as build_trace items, and the counts."""
     thorough = chk.tier == "thorough"
-    chk.rule = ("one case = one outline (valid pen call sequence) pushed through every applicable adapter; "
-                "distinct by the call sequence; non-trivial = the outline has a contour with at least one segment "
-                "(two points), i.e. it draws something")
-    # ---- (M) + generation -----------------------------------------------------------
     cfg = "MC_PenProto_thorough" if thorough else "MC_PenProto"
     r = chk.tlc("MC_PenProto", cfg=cfg, label="MC_PenProto exhaustive", timeout=2400 if thorough else 900, workers=WORKERS,
                 env={"JAVA_TOOL_OPTIONS": "-Xss32m"})
@@ -723,6 +788,16 @@ def run(chk):
     level = 2 if thorough else 0
     items = [(12, outlines[i], {"src": "exhaustive", "n": i}, i + chk.seed, level) for i in chosen]
     items += [(12, o, {"src": "simulation", "n": i}, i + chk.seed, level) for i, o in enumerate(deep)]
+    return items, cfg, n_exh, len(chosen), len(deep)
+
+
+def run(chk):
+    thorough = chk.tier == "thorough"
+    chk.rule = ("one case = one outline (valid pen call sequence) pushed through every applicable adapter; "
+                "distinct by the call sequence; non-trivial = the outline has a contour with at least one segment "
+                "(two points), i.e. it draws something")
+    # ---- (M) + generation -----------------------------------------------------------
+    items, cfg, n_exh, n_chosen, n_deep = lattice_items(chk)
     # ---- (R) ------------------------------------------------------------------------
     traces = common.pmap(build_trace, items, chunksize=100)
     nruns = sum(len(t["r"]) for t in traces)
@@ -752,11 +827,11 @@ def run(chk):
         for rr in t["r"]:
             per[rr[0]] = per.get(rr[0], 0) + 1
     chk.notes["runs_per_adapter"] = {NAMES[k]: v for k, v in sorted(per.items())}
-    chk.notes["outlines"] = {"enumerated": n_exh, "replayed_from_enumeration": len(chosen), "simulation": len(deep),
+    chk.notes["outlines"] = {"enumerated": n_exh, "replayed_from_enumeration": n_chosen, "simulation": n_deep,
                              "corpus": len(ctraces)}
     chk.exhaustive = False
     chk.notes["exhaustive_part"] = ("%s.cfg: every valid call sequence within the bounds enumerated and checked against "
-                                    "the laws; (R) replays a seeded sample of %d of them" % (cfg, len(chosen)))
+                                    "the laws; (R) replays a seeded sample of %d of them" % (cfg, n_chosen))
     chk.assumptions += [
         "coordinates on the 1/12 grid (lattice) or 1/2 grid (fonts); recorded floats are mapped to the grid with 1e-6 tolerance, off-grid values are sent as a sentinel and rejected by the geometry clauses",
         "smooth flags, point names, identifiers are not geometry and are ignored",
